@@ -760,6 +760,14 @@ struct TemplateCore {
                 case TagPatterns::IfID: {
                     SizeT       offset    = finder.GetOffset();
                     const SizeT if_offset = (offset - TagPatterns::IfPrefixLength);
+
+                    if ((offset < length) && (((content[offset] >= Char_T('a')) && (content[offset] <= Char_T('z'))) ||
+                                              ((content[offset] >= Char_T('A')) && (content[offset] <= Char_T('Z'))))) {
+                        // "<iframe", "<ifoo": the name of another element, not an <if ...> tag.
+                        finder.Next();
+                        break;
+                    }
+
                     SizeT       case_offset{0};
                     SizeT       case_end_offset{0};
 
